@@ -8,3 +8,6 @@ open Biogo.Properties.C20_checker
 #print axioms add_checker_iff
 #print axioms tx_checker_sound
 #print axioms gf_checker_sound
+#print axioms chain_split
+#print axioms query_positionWithin
+#print axioms query_orientationWithin
